@@ -249,7 +249,7 @@ def _generate_ctls_with_code_map(snapshot, start, end, config, rst_handler, code
                             if entry.next:
                                 e_end = entry.next.address
                             else:
-                                e_end = 65536
+                                e_end = end
                             _find_terminal_instruction(snapshot, ctls, instruction.address, e_end, rst_handler, entry.ctl)
                             disassembly.remove_entry(entry.address)
                             done = False
